@@ -224,6 +224,7 @@ type zipkinNDDecoderV2 struct {
 
 func (z *zipkinNDDecoderV2) Decode() error {
 	scanner := bufio.NewScanner(z.ctx.bodyReader)
+	scanner.Buffer(make([]byte, 0, 64*1024), maxNDJSONLine)
 	scanner.Split(bufio.ScanLines)
 	for scanner.Scan() {
 		z.reset()
@@ -232,6 +233,9 @@ func (z *zipkinNDDecoderV2) Decode() error {
 		if err != nil {
 			return custom_errors.NewUnmarshalError(err)
 		}
+	}
+	if err := scanner.Err(); err != nil {
+		return custom_errors.NewUnmarshalError(err)
 	}
 	return nil
 }
